@@ -90,36 +90,47 @@ def toml_value(v):
 
 
 # option table: name -> dict(sources -> (how to set, raw value), builtin, observe)
+UNOBSERVED = '<the command does not use this option>'
+
+
+def call_kwarg(rec, methods, kw):
+    """The value the command passed to the first of the given Repository methods (UNOBSERVED if it calls none)."""
+    for name, a, k in rec.get('calls', []):
+        if name in methods and kw in k:
+            return k[kw]
+    return UNOBSERVED
+
+
 def option_table(root):
     T = {}
     T['concurrent'] = {
         'cli': (['-c', '11'], 11), 'profile': ('concurrent', '13'), 'default': ('concurrent', '17'), 'builtin': 5,
-        'native': {'profile': 13, 'default': 17}, 'observe': lambda rec: rec['args']['concurrent'], 'coerce': int}
+        'native': {'profile': 13, 'default': 17}, 'observe': lambda rec: rec['init_kwargs'].get('concurrent', UNOBSERVED), 'coerce': int}
     T['hide-progress'] = {
         'cli': (['-q'], True), 'profile': ('hide-progress', 'true'), 'default': ('hide-progress', 'true'), 'builtin': False,
-        'native': {'profile': True, 'default': True}, 'observe': lambda rec: rec['args']['quiet'], 'coerce': lambda v: guess(v)}
+        'native': {'profile': True, 'default': True}, 'observe': lambda rec: rec['init_kwargs'].get('quiet', UNOBSERVED), 'coerce': lambda v: guess(v)}
     T['cache-directory'] = {
         'cli': (['--cache-directory', '/cache/cli'], Path('/cache/cli')), 'profile': ('cache-directory', '/cache/prof'),
-        'default': ('cache-directory', '/cache/dflt'), 'builtin': 'DEFAULT_CACHE', 'observe': lambda rec: rec['args']['cache_directory'],
+        'default': ('cache-directory', '/cache/dflt'), 'builtin': 'DEFAULT_CACHE', 'observe': lambda rec: rec['init_kwargs'].get('cache_directory', UNOBSERVED),
         'coerce': Path}
     T['password'] = {
         'cli': (['-p', 'pw-on-cli'], b'pw-on-cli'), 'env': ('REPLICAT_PASSWORD', 'pw-in-env'), 'profile': ('password', 'pw-in-prof'),
-        'default': ('password', 'pw-in-dflt'), 'builtin': None, 'observe': lambda rec: rec['args']['password'],
+        'default': ('password', 'pw-in-dflt'), 'builtin': None, 'observe': lambda rec: call_kwarg(rec, ('init', 'unlock'), 'password'),
         'coerce': lambda v: v.encode() if isinstance(v, str) else v}
     T['password-file'] = {
         'cli': (['-P', str(root / 'pw-cli')], b'pw-cli-contents'), 'env': ('REPLICAT_PASSWORD', 'pw-in-env'),
         'profile': ('password-file', str(root / 'pw-prof')), 'default': ('password-file', str(root / 'pw-dflt')), 'builtin': None,
-        'observe': lambda rec: rec['args']['password'],
+        'observe': lambda rec: call_kwarg(rec, ('init', 'unlock'), 'password'),
         'coerce': lambda v: v.encode() if isinstance(v, str) and not v.startswith('/') else
         (Path(v).read_bytes() if isinstance(v, str) else v)}
     T['key-file'] = {
         'cli': (['-K', str(root / 'key-cli')], b'key-cli-contents'), 'profile': ('key-file', str(root / 'key-prof')),
-        'default': ('key-file', str(root / 'key-dflt')), 'builtin': None, 'observe': lambda rec: rec['args']['key'],
+        'default': ('key-file', str(root / 'key-dflt')), 'builtin': None, 'observe': lambda rec: call_kwarg(rec, ('unlock',), 'key'),
         'coerce': lambda v: Path(v).read_bytes() if isinstance(v, str) else v}
     T['repository'] = {
         'cli': (['-r', 'local:/repo/cli'], ('local', '/repo/cli')), 'env': ('REPLICAT_REPOSITORY', 'local:/repo/env'),
         'profile': ('repository', 'local:/repo/prof'), 'default': ('repository', 'local:/repo/dflt'), 'builtin': 'CWD',
-        'observe': lambda rec: (rec['backend'], rec['connection_string']),
+        'observe': lambda rec: (rec['backend'], str(getattr(rec['instance'], 'path', UNOBSERVED))),
         'coerce': lambda v: tuple(v.split(':', 1)) if isinstance(v, str) else v}
     return T
 
@@ -206,26 +217,44 @@ def run_main(argv, env, toml_text, root, location='explicit'):
             root_logger = logging.getLogger()
             handlers = list(root_logger.handlers)
             main_mod = importlib.import_module('replicat.__main__')
-            real_instantiate = main_mod._instantiate_backend
+            import replicat.repository as _rr
+            real_repository = _rr.Repository
 
-            async def recorder(backend_type, connection_string, args, settings):
-                backend = real_instantiate(backend_type, connection_string, vars(args))
-                rec.update(backend=backend_type.__module__.rsplit('.', 1)[-1], connection_string=connection_string,
-                           args=dict(vars(args)), settings=settings, instance=backend)
-                close = getattr(backend, '_client', None)
-                if close is not None:
-                    await close.aclose()
+            class RecordingRepository:
+                """Stands in for the Repository class: what reaches its public interface is the effective
+                configuration (no dependence on how __main__ is organised internally)."""
 
-            main_mod._cmd_handler = recorder
+                def __init__(self, backend, **kw):
+                    rec.update(backend=type(backend).__module__.rsplit('.', 1)[-1], instance=backend, init_kwargs=dict(kw),
+                               calls=[])
+                    self._backend = backend
+
+                def __getattr__(self, name):
+                    if name.startswith('__'):
+                        raise AttributeError(name)
+
+                    async def method(*a, **kw):
+                        rec['calls'].append((name, a, kw))
+                        if name == 'close':
+                            for v in vars(self._backend).values():
+                                if hasattr(v, 'aclose'):
+                                    await v.aclose()
+                    return method
+
+            patched = [(main_mod, k) for k, v in vars(main_mod).items() if v is real_repository]
+            for m_, k_ in patched:
+                setattr(m_, k_, RecordingRepository)
+            _rr.Repository = RecordingRepository     # `from . import repository` spelling
             try:
                 main_mod.main()
-                rec['outcome'] = 'ok'
+                rec['outcome'] = 'ok' if 'instance' in rec else 'exc:no-repository-created'
             except SystemExit as e:
                 rec['outcome'] = f'exit:{e.code}'
             except Exception as e:
                 rec['outcome'] = f'exc:{type(e).__name__}'
                 rec['exc_msg'] = str(e)[:160]
             finally:
+                _rr.Repository = real_repository
                 for h_ in list(root_logger.handlers):
                     if h_ not in handlers:
                         root_logger.removeHandler(h_)
@@ -305,6 +334,8 @@ def common_case(args):
     if rec.get('outcome') != 'ok':
         return [(dict(sig0, what='run-failed', outcome=rec.get('outcome')), dict(detail, stderr=rec.get('stderr'), msg=rec.get('exc_msg')))]
     got = T['observe'](rec)
+    if got is UNOBSERVED or (isinstance(got, tuple) and UNOBSERVED in got):
+        return []      # e.g. the password for a command that never unlocks: there is no effective value to speak of
     if want == 'DEFAULT_CACHE':
         import replicat.utils.config as cfgmod
         want = cfgmod.DEFAULT_CACHE_DIRECTORY
@@ -475,7 +506,10 @@ def main():
                 'distinct by construction',
         'common_cases': len(ccases), 'backend_cases': len(bcases), 'exclusive_cases': len(ecases), 'commands': cmds,
     })
-    chk.assumptions += ['CLI/config modules re-imported per case (a real process runs main() once)',
+    chk.assumptions += ['the effective value of an option is what reaches the public interface: the keyword arguments of '
+                        'Repository(...) and of the backend constructor, and the password/key passed to init/unlock; a case whose '
+                        'command never uses the option (e.g. the key for list-objects) has nothing to observe and is skipped',
+                        'CLI/config modules re-imported per case (a real process runs main() once)',
                         'options placed after the sub-command, as the parsers require']
     return chk.finish()
 
